@@ -163,14 +163,22 @@ def run_size(case):
     if sum(ws) != w or sum(hs) != h or len(ws) != cols or len(hs) != rows:
         fails.append(("new-table-sums", f"{rows}x{cols} table {w}x{h}: widths {ws} heights {hs}"))
     for k, i, v in ops:
-        if k == "w":
-            tbl.columns[i].width = v
-        elif k == "h":
-            tbl.rows[i].height = v
-        elif k == "W":
-            gf.width = v          # the caller resizes the frame: it no longer equals the sum ...
-        else:
-            gf.height = v
+        before = ([int(c.width) for c in tbl.columns], [int(r.height) for r in tbl.rows], int(gf.width), int(gf.height))
+        try:
+            if k == "w":
+                tbl.columns[i].width = v
+            elif k == "h":
+                tbl.rows[i].height = v
+            elif k == "W":
+                gf.width = v          # the caller resizes the frame: it no longer equals the sum ...
+            else:
+                gf.height = v
+        except ValueError:
+            # refused (the value, or the total it produces, cannot be written): nothing may have changed
+            after = ([int(c.width) for c in tbl.columns], [int(r.height) for r in tbl.rows], int(gf.width), int(gf.height))
+            if after != before:
+                fails.append(("size-refused-but-changed", f"{k}[{i}] = {v} was refused but the sizes changed from {before} to {after}"))
+            continue
         if gf.width != sum(c.width for c in tbl.columns) and k == "w":
             fails.append(("frame-width", f"frame width {gf.width} != sum of column widths"))
         if gf.height != sum(r.height for r in tbl.rows) and k == "h":
@@ -265,7 +273,9 @@ def correspond(ctx):
                 w = rng.choice([0, 1, 7, 100, 914400, 9144000, 1234567]) + rng.randint(0, 50)
                 h = rng.choice([0, 1, 5, 370840, 999999]) + rng.randint(0, 50)
                 # ... until the next column-width / row-height assignment, which must make it the sum again
-                ops = [(rng.choice("wwhhWH"), 0, rng.randint(0, 100000)) for _ in range(rng.randint(0, 4))]
+                edge = [0, -1, 1, 27273042316900, 27273042316901, -27273042329600, -27273042329601, 13636521158450, -5000]
+                ops = [(rng.choice("wwhhWH"), 0, rng.choice(edge) if rng.random() < 0.35 else rng.randint(0, 100000)) for _ in range(rng.randint(0, 5))]
+                ops = [(k, i, (max(v, 0) if k in "WH" else v)) for k, i, v in ops]   # the frame itself is resized inside its type only
                 ops = [(k, rng.randrange(cols if k in "wW" else rows), v) for k, _, v in ops]
                 items.append(("size", (rows, cols, w, h, ops)))
                 ctx.count("size")
